@@ -5,6 +5,7 @@ import SlocModel.Driver.Toml
 import SlocModel.Driver.Trend
 import SlocModel.Driver.Baseline
 import SlocModel.Driver.Structure
+import SlocModel.Driver.AtomicWrite
 open SlocModel.Driver
 
 def dispatch (line : String) : String :=
@@ -26,6 +27,7 @@ def dispatch (line : String) : String :=
       | "trend-delta" => handleTrendDelta args
       | "duration" => handleDuration args
       | "baseline-step" => handleBaselineStep args
+      | "save-crash" => handleSaveCrash args
       | "struct-dir" => handleStructDir args
       | "walk" => handleWalk args
       | "base-depth" => handleBaseDepth args
